@@ -5,7 +5,10 @@ use arc_swap_verif_rt::atomic::AtomicPtr;
 #[cfg(arc_swap_verif)]
 use core::sync::atomic::Ordering;
 
+#[cfg(not(arc_swap_verif))]
 use std::sync::RwLock;
+#[cfg(arc_swap_verif)]
+use arc_swap_verif_rt::sync::RwLock;
 
 use super::sealed::{CaS, InnerStrategy, Protected};
 use crate::as_raw::AsRaw;
